@@ -45,6 +45,8 @@ impl Read for ByteStream {
             buf.len() as u64,
             (self.region.end() - self.offset).into_u64(),
         ) as usize;
+        #[cfg(jubako_verif)]
+        let max_len = crate::verif::short_read(max_len);
         let buf = &mut buf[..max_len];
         match self.source.read(self.offset, buf) {
             Ok(s) => {
